@@ -73,6 +73,22 @@ def run(run):
                 continue
             budget -= f
             cells.append(c)
+        if 0.05 <= m < 0.25:
+            # structured lists: runs of consecutive siblings (each the next cell on the curve after the previous one) expanded by
+            # 3..5 levels, with cells that are already at the target resolution in between and around them, in curve order or not
+            r0 = rng.randint(1, 24)
+            par = gen.rand_cell(rng, r0)
+            sib = spec.children(par)
+            d = rng.choice([3, 4, 4, 5])
+            R = min(29, r0 + 1 + d)
+            run_ = sib[rng.randrange(len(sib) - 1):][: rng.choice([2, 2, 3])]
+            cells = []
+            for a_ in run_:
+                cells.append(a_)
+                for _ in range(rng.choice([0, 1, 1, 2, 3])):
+                    cells.append(gen.rand_cell(rng, R))
+            if rng.random() < 0.2:
+                rng.shuffle(cells)
         if m < 0.05:
             R = rng.choice([30, 31, 2147483647, -2, -2147483648])
         reqs.append(f"uncompact {','.join(map(str, cells)) if cells else '-'} {R}")
@@ -93,7 +109,7 @@ def run(run):
         if a.startswith("ok ") and "," in a:
             run.nontrivial.add(q)
     run.rule = ("random lists (0..9 cells, mixed resolutions incl. world/base/quintant cells, duplicates) x targets -1..29 with total fan-out <= 4^8, "
-                "15% inputs possibly finer than the target, out-of-range targets; oracle = independent tree semantics, per-input blocks in input order; "
+                "20% structured lists (runs of consecutive siblings expanded by 3-5 levels with cells already at the target resolution in between), 15% inputs possibly finer than the target, out-of-range targets; oracle = independent tree semantics, per-input blocks in input order; "
                 "non-trivial = distinct requests whose result has more than one cell")
     run.samples = [{"request": reqs[i][:200], "impl": impl[i][:200], "model": model[i][:200]} for i in rng.sample(range(len(reqs)), 6)]
     run.extra["outcome_distribution"] = kinds
